@@ -63,6 +63,40 @@ func c10Lock(r *Run) {
 			nmaps++
 		}
 	}
+	// registries grouped into a lock-less helper struct held by the VM (vm.defs.classes …): the maps of
+	// that struct are guarded by the VM's mutex just the same
+	for i := 0; i < st.NumFields(); i++ {
+		t := st.Field(i).Type()
+		if pt, ok := t.(*types.Pointer); ok {
+			t = pt.Elem()
+		}
+		nt := namedOf(t)
+		if nt == nil || nt.Obj().Pkg() != pkg.Types || nt == vm {
+			continue
+		}
+		inner, ok := nt.Underlying().(*types.Struct)
+		if !ok {
+			continue
+		}
+		ownMutex := false
+		var maps []*types.Var
+		for j := 0; j < inner.NumFields(); j++ {
+			f := inner.Field(j)
+			if isNamed(f.Type(), "sync", "RWMutex") || isNamed(f.Type(), "sync", "Mutex") {
+				ownMutex = true
+			}
+			if _, ok := f.Type().Underlying().(*types.Map); ok {
+				maps = append(maps, f)
+			}
+		}
+		if ownMutex || len(maps) < 2 {
+			continue
+		}
+		for _, f := range maps {
+			la.guarded[f] = true
+			nmaps++
+		}
+	}
 	r.stat("vm_registry_maps", nmaps)
 	if nmaps < 5 {
 		r.fail("runtime.VM has only %d map fields; the registries moved", nmaps)
